@@ -101,11 +101,11 @@ Lemma grpD : forall tr rt off,
   stub_ok tr rt off = negb (lim_byref_nonce tr rt || lim_byref_consent tr off).
 Proof.
   intros tr rt off. unfold stub_ok, lim_byref_nonce, lim_byref_consent.
-  destruct (is_stub tr), (has_word "id_token" rt), off; reflexivity.
+  destruct repaired_byref, (is_stub tr), (has_word "id_token" rt), off; reflexivity.
 Qed.
 
 Lemma grpD' : forall tr claims, par_claims_ok tr claims = negb (lim_par_claims tr claims).
-Proof. intros [] []; reflexivity. Qed.
+Proof. intros tr claims. unfold par_claims_ok, lim_par_claims. destruct repaired_par_request_class, tr, claims; reflexivity. Qed.
 
 (* ------------------------------------------------------------------ group E: userinfo signing algorithm *)
 Lemma grpE_table :
@@ -171,15 +171,30 @@ Lemma grpI_rt_table :
                               (negb (has_word "id_token" rt || uses_token_endpoint rt))) cfg_response_types = true.
 Proof. vm_compute. reflexivity. Qed.
 
-Lemma grpI : forall rt enc, In rt cfg_response_types -> in_opt2 enc rp_idt_enc_algs rp_idt_enc_encs ->
-  idt_enc_front_ok rt enc && idt_enc_token_ok rt enc = negb (lim_idt_enc rt enc).
+Lemma grpI_fam_table : forallb enc_family_known rp_idt_enc_algs = true.
+Proof. vm_compute. reflexivity. Qed.
+
+Definition grpI_ok (rt : pystr) (enc : option (pystr * pystr)) (len : N) : bool :=
+  idt_enc_front_ok rt enc && idt_enc_token_ok rt enc
+  && idt_enc_key_authz_ok rt enc len && idt_enc_key_token_ok rt enc len.
+
+Lemma grpI : forall rt enc len, In rt cfg_response_types -> in_opt2 enc rp_idt_enc_algs rp_idt_enc_encs ->
+  grpI_ok rt enc len = negb (lim_idt_enc rt enc || lim_kw_idt rt enc len).
 Proof.
-  intros rt enc Hrt He. unfold idt_enc_front_ok, idt_enc_token_ok, lim_idt_enc.
+  intros rt enc len Hrt He.
+  unfold grpI_ok, idt_enc_front_ok, idt_enc_token_ok, idt_enc_key_authz_ok, idt_enc_key_token_ok, lim_idt_enc, lim_kw_idt.
   pose proof grpI_rt_table as T. rewrite forallb_forall in T. specialize (T _ Hrt). apply eqb_true_eq in T.
-  destruct enc as [[a e]|]; [|reflexivity].
-  destruct He as [Ha He]. pose proof grpI_reg_table as R.
-  rewrite forallb_forall in R. specialize (R _ Ha). rewrite forallb_forall in R. specialize (R _ He).
-  rewrite R. cbn [is_some andb]. exact T.
+  destruct enc as [[a e]|].
+  - destruct He as [Ha He]. pose proof grpI_reg_table as R.
+    rewrite forallb_forall in R. specialize (R _ Ha). rewrite forallb_forall in R. specialize (R _ He).
+    rewrite R. pose proof grpI_fam_table as F. rewrite forallb_forall in F. specialize (F _ Ha).
+    unfold enc_family_known in F. cbn [is_some idt_enc_alg_key_ok]. unfold enc_key_ok.
+    destruct (has_word "id_token" rt || uses_token_endpoint rt) eqn:M;
+      destruct (str_in (PS "id_token") (artefacts_op rt)), (uses_token_endpoint rt); cbn in T; try discriminate;
+      destruct repaired_idt_enc; destruct (assoc a enc_alg_family) as [[| | |]|]; try discriminate;
+      cbn; try reflexivity; destruct (aes_len len); reflexivity.
+  - cbn [idt_enc_registered is_some idt_enc_alg_key_ok andb negb orb].
+    destruct repaired_idt_enc, (has_word "id_token" rt || uses_token_endpoint rt); cbn; rewrite ?andb_false_r; reflexivity.
 Qed.
 
 (* ------------------------------------------------------------------ factorisation and the product theorem *)
@@ -193,11 +208,11 @@ Lemma checks_factor : forall c i,
     && par_claims_ok (c_tr c) (i_claims i)
     && grpC_ok (c_rt c) (c_idt_sig c)
     && idt_hashes_ok (c_rt c)
-    && (idt_enc_front_ok (c_rt c) (c_idt_enc c) && idt_enc_token_ok (c_rt c) (c_idt_enc c))
+    && grpI_ok (c_rt c) (c_idt_enc c) (i_secret_len i)
     && ui_sig_ok (c_rt c) (c_ui_sig c)
     && ui_enc_ok (c_rt c) (c_ui_enc c) (i_secret_len i).
 Proof.
-  intros c i. unfold checks, grpA_ok, grpB_ok, grpC_ok. cbn [forallb snd]. btauto.
+  intros c i. unfold checks, grpA_ok, grpB_ok, grpC_ok, grpI_ok. cbn [forallb snd]. btauto.
 Qed.
 
 Lemma checks_limits : forall c i, in_product c -> forallb snd (checks c i) = negb (limits c i).
@@ -205,7 +220,7 @@ Proof.
   intros c i (Hrt & Hrm & Hauth & Hsig & Hie & Hus & Hue & Hp).
   rewrite checks_factor.
   rewrite (grpA _ _ (i_rp_all_rts i) (i_op_explicit i) Hrt Hrm), (grpG _ Hp), (grpB _ (c_tr c) _ Hrt Hauth),
-    grpD, grpD', (grpC _ _ Hrt Hsig), (grpH _ Hrt), (grpI _ _ Hrt Hie), (grpE _ _ Hrt Hus), (grpF (c_rt c) _ (i_secret_len i) Hue).
+    grpD, grpD', (grpC _ _ Hrt Hsig), (grpH _ Hrt), (grpI _ _ (i_secret_len i) Hrt Hie), (grpE _ _ Hrt Hus), (grpF (c_rt c) _ (i_secret_len i) Hue).
   unfold limits, grpA_lim. btauto.
 Qed.
 
@@ -358,11 +373,12 @@ Ltac views_tac s :=
   destruct (s_nonce s); reflexivity.
 
 (* every flow whose ID Token (if any) comes from the TOKEN endpoint: every view agrees with every other *)
-Theorem views_agree : forall asrc isrc at_jwt s now, isrc <> SrcAuthz ->
+Theorem views_agree : forall asrc isrc at_jwt s now, isrc <> SrcAuthz \/ repaired_idt_exp = true ->
   all_agree (all_views asrc isrc at_jwt s now now) = true.
 Proof.
-  intros asrc isrc at_jwt s now H. unfold all_views.
-  destruct asrc, isrc, at_jwt; try congruence; cbn [app all_agree forallb has_src andb]; views_tac s.
+  intros asrc isrc at_jwt s now [H|H]; unfold all_views.
+  - destruct asrc, isrc, at_jwt; try congruence; cbn [app all_agree forallb has_src andb]; views_tac s.
+  - destruct asrc, isrc, at_jwt; cbn [app all_agree forallb has_src andb]; unfold view_session; rewrite ?H; views_tac s.
 Qed.
 
 (* ID Token minted at the AUTHORIZATION endpoint (id_token, id_token token, code id_token token): everything
@@ -376,7 +392,7 @@ Proof.
 Qed.
 
 Theorem views_agree_implicit_refuted :
-  exists s, all_agree (all_views SrcNone SrcAuthz false s 0 0) = false.
+  exists s, all_agree (all_views SrcNone SrcAuthz false s 0 0) = repaired_idt_exp.
 Proof.
   exists (mkSession (PS "c") (PS "s") [PS "openid"] (Some (PS "n")) 0 300). vm_compute. reflexivity.
 Qed.
@@ -388,10 +404,11 @@ Definition projects (s : session) (v : view) : Prop :=
   /\ (match v_nonce v with Some n => s_nonce s = Some n | None => True end)
   /\ opt_is (v_at_exp v) (s_at_exp s) /\ opt_is (v_idt_exp v) (s_idt_exp s).
 
-Theorem views_project : forall asrc isrc at_jwt s now v, isrc <> SrcAuthz ->
+Theorem views_project : forall asrc isrc at_jwt s now v, isrc <> SrcAuthz \/ repaired_idt_exp = true ->
   In v (all_views asrc isrc at_jwt s now now) -> projects s v.
 Proof.
-  intros asrc isrc at_jwt s now v Hs H. unfold all_views in H.
+  intros asrc isrc at_jwt s now v Hs H. unfold all_views, view_session in H.
+  destruct Hs as [Hs|Hs]; [|rewrite ?Hs in H];
   destruct asrc, isrc, at_jwt; try congruence; cbn in H;
     repeat (destruct H as [<-|H]; [unfold projects; cbn; unfold expires_in;
                                    repeat split; try reflexivity; try lia; destruct (s_nonce s); reflexivity|]);
@@ -414,7 +431,7 @@ Section Composed.
 
   Theorem views_model : forall user client req_scope nonce now at_life idt_life asrc at_jwt,
     let s := authorize user client req_scope nonce now at_life idt_life in
-    (forall isrc, isrc <> SrcAuthz ->
+    (forall isrc, isrc <> SrcAuthz \/ repaired_idt_exp = true ->
        all_agree (all_views asrc isrc at_jwt s now now) = true
        /\ (forall v, In v (all_views asrc isrc at_jwt s now now) -> projects s v))
     /\ all_agree (map forget_idt_exp (all_views asrc SrcAuthz at_jwt s now now)) = true
